@@ -178,6 +178,43 @@ def run_case(case, ctx):
             break
         if not (torch.equal(a, sp[i]) and torch.equal(b, sp[j])):
             ctx.violation("input-mutated", "rho(1d,1d) modified its arguments")
+    # rectangular blocks over arbitrary (unordered, repeated, one-row, all-equal) row and column sets held in other
+    # memory forms, and the same tensor object for both arguments: the entry belongs to the pair of basis states
+    for rep_ in range(3):
+        mi, mj = [(1, int(rng.integers(1, N + 2))), (int(rng.integers(2, 2 * N + 1)), int(rng.integers(1, N + 2))), (3, 3)][rep_]
+        ii, jj = rng.integers(0, N, size=mi), rng.integers(0, N, size=mj)
+        if rep_ == 2:
+            ii[:] = ii[0]
+        a, fa = gen.memory_form(sp[ii.tolist()].clone(), rng)
+        if rep_ == 2:
+            b, fb, jj = a, fa, ii  # rho(v, v) with the very same object
+        else:
+            b, fb = gen.memory_form(sp[jj.tolist()].clone(), rng)
+        ka, kb = a.clone(), b.clone()
+        blk = ctx.lib("rho(block)", st.rho, a, b, tags={"memory_forms": f"{fa}/{fb}"})
+        ctx.count("arbitrary_blocks_compared")
+        ctx.seen("memory_forms", fa)
+        if tuple(blk.shape) != (2, mi, mj):
+            ctx.violation("shape", f"rho of a {mi}-row and a {mj}-row batch returned shape {tuple(blk.shape)}")
+            break
+        bl = gen.dec(blk)
+        want = rl[np.ix_(ii, jj)]
+        if np.any(np.abs(bl - want) > 1e-12 * S[np.ix_(ii, jj)]):
+            p_, q_ = np.unravel_index(int(np.argmax(np.abs(bl - want) - 1e-12 * S[np.ix_(ii, jj)])), want.shape)
+            ctx.violation("block-position-dependence", f"rho(rows {ii.tolist()} [{fa}], cols {jj.tolist()} [{fb}]) entry ({p_},{q_}) = {bl[p_, q_]!r} "
+                          f"but the ordered matrix has {want[p_, q_]!r}", tags={"memory_forms": f"{fa}/{fb}"},
+                          witness=dict(wit, rows=ii.tolist(), cols=jj.tolist()))
+            break
+        if mi == mj:
+            pd = gen.dec(ctx.lib("rho(block,expand=False)", st.rho, a, b, expand=False, tags={"memory_forms": f"{fa}/{fb}"})).reshape(-1)
+            wantd = rl[ii, jj]
+            if pd.shape != wantd.shape or np.any(np.abs(pd - wantd) > 1e-12 * S[ii, jj]):
+                ctx.violation("block-position-dependence", f"rho(rows {ii.tolist()}, rows' {jj.tolist()}, expand=False) = {pd!r} but the ordered "
+                              f"matrix has {wantd!r}", tags={"memory_forms": f"{fa}/{fb}"}, witness=dict(wit, rows=ii.tolist(), cols=jj.tolist()))
+                break
+        if not (torch.equal(a, ka) and torch.equal(b, kb)):
+            ctx.violation("input-mutated", f"rho modified a {fa}/{fb} argument")
+            break
     ctx.count("held_results_rechecked", 3)
     if not (np.array_equal(gen.dec(full), rl) and np.array_equal(gen.dec(paired).reshape(N, N), pl) and np.array_equal(prob.numpy(), prob_l)):
         ctx.violation("earlier-result-clobbered", "a tensor returned by rho/probability changed during later calls")
